@@ -18,7 +18,7 @@ I_ = z3.IntSort()
 REFS = z3.Function("refs", I_, I_, z3.BoolSort())  # refs(c, d): d occurs in the cleaned arguments of c
 CMDCOUNT = z3.Function("commands_count", Val, I_)
 CMDAT = z3.Function("commands_at", Val, I_, I_)
-DHAS = z3.Function("dict_has", I_, Val, z3.BoolSort())
+from .dyn import DHAS_ as DHAS
 CLEANED = z3.Function("cleaned_params", I_, Val)
 
 
@@ -89,20 +89,29 @@ def Mono(eng, h, h2):
         z3.ForAll([c], z3.Implies(IS_COMMAND(c), z3.And(
             z3.Implies(h.fin(eng, c), z3.And(h2.fin(eng, c), h2.res(c) == h.res(c), h2.cnt(c) == h.cnt(c), h2.ts(c) == h.ts(c))),
             h2.cnt(c) >= h.cnt(c),
+            # a command that is running cannot be executed by nested calls (re-entry raises): its count stands still
+            z3.Implies(h.running(eng, c), h2.cnt(c) == h.cnt(c)),
             h2.running(eng, c) == h.running(eng, c)))))
 
 
-CLASS_INV_NOTE = ("class invariants of Command objects (established by Command.__init__ / Program.add_command): `arguments` is a list of "
-                  "Argument objects, `inputs` is a dict whose values are Parameter objects")
+CLASS_INV_NOTE = ("class invariants of Command objects (established by CommandMeta.__new__, Command.__init__ and Program.add_command): "
+                  "`arguments` is a list of Argument objects, `inputs` is a dict whose values are Parameter objects, `argument_lines` is "
+                  "a dict, `result_name` is a string; the `name` of an Argument is a string")
 
 
 def class_invariants():
     c, i = z3.Ints("ci_c ci_i")
+    k = z3.Const("ci_k", Val)
     args = Val.items(FLD("arguments")(c))
+    inputs = Val.did(FLD("inputs")(c))
     return [
-        z3.ForAll([c], z3.Implies(IS_COMMAND(c), z3.And(Val.is_L(FLD("arguments")(c)), Val.is_D(FLD("inputs")(c))))),
+        z3.ForAll([c], z3.Implies(IS_COMMAND(c), z3.And(Val.is_L(FLD("arguments")(c)), Val.is_D(FLD("inputs")(c)),
+                                                       Val.is_D(FLD("argument_lines")(c)), Val.is_S(FLD("result_name")(c))))),
+        z3.ForAll([c, k], z3.Implies(z3.And(IS_COMMAND(c), DHAS(inputs, k)),
+                                     z3.And(Val.is_O(DGET(inputs, k)), IS_PARAM(Val.ref(DGET(inputs, k)))))),
         z3.ForAll([c, i], z3.Implies(z3.And(IS_COMMAND(c), i >= 0, i < z3.Length(args)),
                                      z3.And(Val.is_O(args[i]), IS_ARGUMENT(Val.ref(args[i]))))),
+        z3.ForAll([c], z3.Implies(IS_ARGUMENT(c), Val.is_S(FLD("name")(c)))),
     ]
 
 
@@ -173,6 +182,11 @@ def install_hooks():
         if isinstance(container, Ref) and isinstance(st.get(container), Bag):
             yield st, smt.fresh("bag_contains", z3.BoolSort())
             return
+        if isinstance(container, Ref) and isinstance(st.get(container), PyList) and st.get(container).seq is not None \
+                and "keys_of" in st.get(container).seq.meta:
+            # membership in the list of a dict's keys
+            yield st, DHAS(st.get(container).seq.meta["keys_of"], self.to_dyn(st, item))
+            return
         raise Unsupported("containment in %r" % (container,))
 
     def dyn_getitem(self, st, o, idx):
@@ -228,6 +242,7 @@ class RunContract(object):
     def apply(self, eng, st, f, args, kwargs):
         c = _self_ref(f, args)
         h = Heap.of(st)
+        st.log.append(("run-called", c))
         eng.oblige(st, "%s->%s/requires:Inv" % (eng.current.key, self.key), Inv(eng, h), kind="callsite-requires", meta={"clause": "callsite"})
         for s1, fin in eng.branch(st, h.fin(eng, c)):
             if fin:
@@ -320,10 +335,19 @@ register()
 
 # --------------------------------------------------------------------------- loop contracts of Program.run
 def assigned_names(node):
+    """locals a loop body may rebind or mutate (assignment, subscript/attribute store, method call on the name)"""
     out = set()
     for n in ast.walk(node):
         if isinstance(n, ast.Name) and isinstance(n.ctx, (ast.Store, ast.Del)):
             out.add(n.id)
+        elif isinstance(n, (ast.Subscript, ast.Attribute)) and isinstance(n.ctx, (ast.Store, ast.Del)) and isinstance(n.value, ast.Name):
+            out.add(n.value.id)
+        elif isinstance(n, ast.Call) and isinstance(n.func, ast.Attribute) and isinstance(n.func.value, ast.Name) \
+                and n.func.attr in ("append", "add", "extend", "update", "pop", "remove", "insert", "clear", "setdefault", "sort"):
+            out.add(n.func.value.id)
+        elif isinstance(n, ast.AugAssign) and isinstance(n.target, ast.Name):
+            out.add(n.target.id)
+    out.discard("self")
     return out
 
 
@@ -426,6 +450,7 @@ def _ordered(root):
 
 # --------------------------------------------------------------------------- verification of the bodies
 def _base_state(eng):
+    smt.QUANT["on"] = True
     st = State()
     st.add_cell("c")
     st.kterms.append(z3.IntVal(0))
@@ -531,7 +556,9 @@ def verify_validate_params(eng):
                                 "time_s": 0, "function": fi.key, "clause": "frame", "goal": str(effects[:2])})
             if out[0] == "raise":
                 ok = _b(_exc_is(eng, s1, out[1], "ProgramError"))
-                eng.oblige(s1, label + "/raises_only(ProgramError)", ok, kind="raises", meta={"clause": "raises_only"}, assume_after=False)
+                nm = "<%s>" % out[1].base if isinstance(out[1], ExcSym) else s1.get(out[1]).cls.name
+                msg = "" if isinstance(out[1], ExcSym) else str(s1.get(out[1]).fields.get("args", ""))[:80]
+                eng.oblige(s1, label + "/raises_only(ProgramError):%s" % nm, ok, kind="raises", meta={"clause": "raises_only", "exc_msg": msg}, assume_after=False)
     finally:
         if saved is not None:
             S.CONTRACTS[key] = saved
@@ -569,7 +596,7 @@ def verify_program_run(eng, rerun=False):
     for s1, out in eng.run_function(fi, st, {"self": prog_ref}, cls=fi.cls):
         npaths += 1
         h = Heap.of(s1)
-        executed = any(ev[0] == "executed" for ev in s1.log)
+        executed = any(ev[0] in ("executed", "run-called") for ev in s1.log)
         m = lambda cl: {"clause": cl}
         if out[0] == "return":
             k = s1.add_k("k_post")
@@ -588,10 +615,14 @@ def verify_program_run(eng, rerun=False):
         else:
             exc = out[1]
             is_mp = _b(_exc_is(eng, s1, exc, "MPilotError"))
-            eng.oblige(s1, label + "/raises_only(MPilotError)", is_mp, kind="raises", meta=m("raises_only"), assume_after=False)
+            nm = "<%s>" % exc.base if isinstance(exc, ExcSym) else s1.get(exc).cls.name
+            msg = "" if isinstance(exc, ExcSym) else str(s1.get(exc).fields.get("args", ""))[:100]
+            eng.oblige(s1, label + "/raises_only(MPilotError):%s" % nm, is_mp, kind="raises", meta=dict(m("raises_only"), exc_msg=msg), assume_after=False)
             eng.oblige(s1, label + "/raises=>Inv", Inv(eng, h), kind="raises", meta=m("inv"), assume_after=False)
             eng.oblige(s1, label + "/raises=>Mono", Mono(eng, h0, h), kind="raises", meta=m("mono"), assume_after=False)
-            if not any(ev[0] == "after-validation" for ev in s1.log):
-                pass
+            if not executed:
+                # C12: a rejection that happens before anything executed leaves every counter and result untouched
+                eng.oblige(s1, label + "/rejected-before-execution=>nothing-computed", h.same_as(h0) if not any(
+                    ev[0] == "heap-write" for ev in s1.log) else z3.BoolVal(True), kind="raises", meta=m("before-side-effects"), assume_after=False)
     eng.results.append({"name": label + "/paths", "kind": "cover", "status": "unsat" if npaths > 0 else "sat", "backend": "engine", "time_s": 0,
                         "function": fi.key, "clause": "cover", "paths": npaths, "loops": info})
